@@ -1,6 +1,7 @@
 import Revm.Util.Hex
 import Revm.Model.Memory
 import Revm.Spec.Memory
+import Revm.Model.Interp
 /-! Line protocol of component `mem` (C11): `SharedMemory` call sequences and `resize_memory`.
 
 ```
@@ -11,6 +12,9 @@ mem setdata <moff> <doff> <len> <bytes> | copy <dst> <src> <len>
 mem slice <off> <size> | slicer <start> <end> | getbyte <off> | getword <off> | getu256 <off>
 mem ctx | len | dump
 mem words <len> | gas <words>         (stateless: num_words, memory_gas)
+mem ico <kind> <result> <start> <end> <ret> <eof> <sl> <limit> <spent> <crem> <cref> <addr>
+                                      `Interp.insertCallOutcome` (kind call; create / eofcreate: the two create
+                                      re-entries) of the integrated interpreter model on the stream's memory
 ```
 Numbers are decimal, bytes/words hex. State-changing calls answer `ok len=<len> ctx=<bytes>`
 (`rmem`: `ok|oog rem=<gas remaining> len=… ctx=…`), followed by ` | spec=…` (the frame-stack Spec run
@@ -88,6 +92,89 @@ def stateless (toks : List String) : Option String :=
       let v := memoryGas w
       s!"{v} | spec={min (Spec.Memory.memGas w) (U64 - 1)}"
   | _ => none
+
+/-! ### `Interpreter::insert_call_outcome` & co. on the stream's memory -/
+
+def changedGo : List Nat → List Nat → Nat → Option (Nat × Nat) → Option (Nat × Nat)
+  | x :: xs, y :: ys, i, acc =>
+    changedGo xs ys (i + 1)
+      (if x = y then acc else match acc with | none => some (i, i + 1) | some (lo, _) => some (lo, i + 1))
+  | _, _, _, acc => acc
+
+/-- the byte range of the running context that differs between two snapshots -/
+def changed (a b : List Nat) : String :=
+  if a.length ≠ b.length then s!"len:{a.length}->{b.length}" else
+  match changedGo a b 0 none with
+  | some (lo, hi) => s!"{lo}..{hi}"
+  | none => "-"
+
+def ctxOr (m : SharedMemory) : List Nat :=
+  match contextMemory m with
+  | .ok bs => bs
+  | _ => []
+
+/-- `|refund| ≤ 2^62`, decimal with an optional sign -/
+def decI64? (s : String) : Option Int :=
+  let (neg, d) := if s.startsWith "-" then (true, (s.drop 1).toString) else (false, s)
+  if d.isEmpty ∨ ¬ d.all Char.isDigit then none else
+  match d.toNat? with
+  | some n => if n ≤ 2^62 then some (if neg then -(n : Int) else (n : Int)) else none
+  | none => none
+
+def addr? (s : String) : Option (Option Nat) :=
+  if s = "-" then some none else
+  match parseHex? s with
+  | some v => if v < 2^160 then some (some v) else none
+  | none => none
+
+/-- the waiting parent: `Interpreter::new(contract, limit, false)`, `is_eof`, `sl` stack items, `spent` recorded -/
+def icoState (mem : SharedMemory) (eof : Bool) (sl limit spent : Nat) : Model.Interp.IState :=
+  { Model.Interp.IState.init [0] [] limit false 17 0 0 0 {} mem with
+    stack := (List.range sl).map (fun i => 0xabc0 + i)
+    gas := { limit := limit, remaining := limit - spent, refunded := 0 }
+    isEof := eof }
+
+def ico (st : St) (kind res a b ret eof sl limit spent crem cref addr : String) : St × String :=
+  match dec? a, dec? b, parseBytes? ret, dec? sl, dec? limit, dec? spent, dec? crem with
+  | some a, some b, some ret, some sl, some limit, some spent, some crem =>
+    match Model.Interp.IResult.ofName res, parseBool? eof, decI64? cref, addr? addr with
+    | some r, some eof, some cref, some addr =>
+      if ¬ (kind = "call" ∨ kind = "create" ∨ kind = "eofcreate") then (st, "bad-op") else
+      if sl > 1024 ∨ spent > limit ∨ (limit - spent) + crem ≥ U64 then (st, "bad-op") else
+      let o : Model.Interp.ChildResult :=
+        { result := r, output := ret, gasRemaining := crem, gasRefunded := cref, address := addr }
+      let s0 := icoState st.mem eof sl limit spent
+      let e : Model.Interp.Exec Unit :=
+        if kind = "call" then Model.Interp.insertCallOutcome a b o s0
+        else if kind = "create" then Model.Interp.insertCreateOutcome o s0
+        else Model.Interp.insertEofCreateOutcome o s0
+      let finish (ir : String) (s' : Model.Interp.IState) : St × String :=
+        let m' := s'.mem
+        let top := match s'.stack.getLast? with | some w => toHex w | none => "-"
+        let tail := s!" ir={ir} top={top} sl={s'.stack.length} rem={s'.gas.remaining} ref={s'.gas.refunded} rd={bytesToHex s'.returnData}"
+        -- what the property says: the frame stack changes by one write of the returned prefix into the window
+        let t := min (b - a) ret.length
+        let writes := kind = "call" ∧ (r.isOk ∨ r.isRevert) ∧ t ≠ 0
+        let (fr, sp) : Option Spec.Memory.Frames × String :=
+          match st.frames with
+          | none => (none, "")
+          | some fs =>
+            let fs' := if writes then Spec.Memory.step (.write a (ret.take t)) fs else some fs
+            match fs, fs' with
+            | f0 :: _, some (f :: r') =>
+              (some (f :: r'), s!" | spec=ok len={f.length} ctx={bytesToHex f} chg={changed f0 f}{tail}")
+            | _, some fs' => (some fs', "")
+            | _, none => (none, " | spec=undefined")
+        ({ st with mem := m', frames := fr },
+         s!"ok {stateStr m'} chg={changed (ctxOr st.mem) (ctxOr m')}{tail}{sp}")
+      match e with
+      | .ok _ s' => finish "Continue" s'
+      | .halt r _ s' => finish r.name s'
+      | .fault .panic => (st, "panic")
+      | .fault .oobMemory => (st, "ub")
+      | .fault _ => (st, "fault")
+    | _, _, _, _ => (st, "bad-op")
+  | _, _, _, _, _, _, _ => (st, "bad-op")
 
 def handleOp (st : St) (toks : List String) : St × String :=
   let m := st.mem
@@ -173,6 +260,8 @@ def handleOp (st : St) (toks : List String) : St × String :=
     match dec? o with
     | some o => (st, readReply (getU256 m o) toHex)
     | none => (st, "bad-op")
+  | ["ico", kind, res, a, b, ret, eof, sl, limit, spent, crem, cref, addr] =>
+    ico st kind res a b ret eof sl limit spent crem cref addr
   | ["ctx"] => (st, readReply (contextMemory m) bytesToHex)
   | ["len"] => (st, s!"{len m} empty={boolStr (isEmpty m)} cost={currentExpansionCost m}")
   | ["dump"] =>
